@@ -70,7 +70,8 @@ REQUIRED_REACH = ["two-workers-alive-at-once", "empty-chunk:more-threads-than-pa
 
 # --------------------------------------------------------------------------- integrands
 def _val(f):
-    a = f.value
+    # not `f.value`: that property goes through warnings.warn (a process-global registry) on every call
+    a = np.array(f)
     while a.ndim > 2:
         a = a.sum(axis=0)
     return a
@@ -121,7 +122,7 @@ def make_form(name, nu):
             us, vs, w = _split(args, nu)
             f = w["f"]
             f = f[0] if isinstance(f, tuple) else f
-            return w["c"] * U(us) * dV(vs) + _val(f) * U(us) * V(vs) + w["g"].value * dU(us) * V(vs)
+            return w["c"] * U(us) * dV(vs) + _val(f) * U(us) * V(vs) + np.array(w["g"]) * dU(us) * V(vs)
     elif name == "complex":
         def form(*args):
             us, vs, w = _split(args, nu)
@@ -592,35 +593,43 @@ def controlled(ctx, cfg, ref, nthreads, fine, nsample, rng):
     info = {"config": cfg.desc, "nthreads": int(nthreads), "granularity": gran,
             "per_worker_pair_sequences": [list(map(list, s)) for s in seqs], "interleavings_total": int(total),
             "exhaustive": bool(complete), "schedules_run": nrun, "interleavings_distinct_observed": len(hashes)}
-    ctx.sample(info, per_family=3)
+    if total >= 6:
+        ctx.sample(info, per_family=3)
     return info
 
 
-def _npairs_of_spec(spec):
-    ub = _elem(spec[1])
-    vb = _elem(spec[2]) if spec[2] else ub
-
-    def nb(e):
-        # Nbfun of the element on its reference cell
-        rd = e.refdom
-        return (e.nodal_dofs * rd.nnodes + e.edge_dofs * (rd.nedges if e.dim == 3 else 0)
-                + e.facet_dofs * (rd.nfacets if e.dim >= 2 else 0) + e.interior_dofs)
-    return nb(ub) * nb(vb)
-
-
+# local sizes (Nu, Nv) of the SMALL specs and of the larger specs that are also enumerated for few threads; used only
+# to order the table by enumeration cost (the run itself takes the sizes from the bases)
+SMALL_SIZES = [(1, 1), (1, 2), (2, 1), (2, 2), (2, 2), (1, 3), (3, 1), (3, 2), (2, 3), (1, 1), (1, 3), (1, 1)]
+ENUM_EXTRA = [  # (spec, (Nu, Nv), thread counts): enumerable although the block is larger
+    (LARGE[0], (3, 3), (2, 3)),        # tri P1, same basis object: 126 / 1680 kernel interleavings
+    (LARGE[2], (3, 3), (2, 3)),        # composite line P1*P0 (two components per operand)
+    (LARGE[3], (4, 2), (2, 3, 4)),     # LinePp(3) x P1: 70 / 560 / 2520
+    (LARGE[6], (3, 1), (1, 2, 3, 4, 5)),   # H(div) trial x P0
+    (LARGE[11], (4, 1), (2, 3, 4, 5, 6)),  # tet P1 x P0
+]
 _TABLE = []
 
 
+def _even_split(n, k):
+    k = max(1, min(k, n))
+    base, extra = divmod(n, k)
+    return [base + (1 if x < extra else 0) for x in range(k)]
+
+
 def enum_table():
-    """(spec index, nthreads) for every SMALL spec and every thread count 1..N+2, cheapest enumeration first, so
-    that a prefix (quick tier) already sees every spec and all small thread counts."""
+    """[(spec, nthreads)]: every SMALL spec with every thread count 1..N+2 and the ENUM_EXTRA entries, cheapest
+    enumeration first, so that a prefix (quick tier) already sees every SMALL spec with several thread counts."""
     if not _TABLE:
         table = []
-        for si, spec in enumerate(SMALL):
-            n = _npairs_of_spec_cached(si)
-            for nth in range(1, n + 3):
-                table.append((si, nth))
-        _TABLE.extend(_directed_order(table))
+        for spec, (nu, nv) in zip(SMALL, SMALL_SIZES):
+            for nth in range(1, nu * nv + 3):
+                table.append((H.multinomial(_even_split(nu * nv, nth)), len(table), spec, nth))
+        for spec, (nu, nv), ths in ENUM_EXTRA:
+            for nth in ths:
+                table.append((H.multinomial(_even_split(nu * nv, nth)), len(table), spec, nth))
+        table.sort(key=lambda t: t[:2])
+        _TABLE.extend((spec, nth) for _, _, spec, nth in table)
     return _TABLE
 
 
@@ -630,37 +639,15 @@ def fam_enum(fine):
         rng = ctx.rng()
         order = enum_table()
         if k < len(order):
-            si, nth = order[k]
+            spec, nth = order[k]
+            cfg = build_config(rng, spec, "tiny")
         else:
-            si = int(rng.integers(len(SMALL)))
-            nth = int(rng.integers(1, _npairs_of_spec_cached(si) + 3))
-        cfg = build_config(rng, SMALL[si], "tiny")
+            cfg = build_config(rng, SMALL[int(rng.integers(len(SMALL)))], "tiny")
+            nth = int(rng.integers(1, cfg.npairs + 3))
         ref = serial_reference(cfg)
         nth = max(1, min(nth, cfg.npairs + 2))
         controlled(ctx, cfg, ref, nth, fine, ctx.scale(30, 120), rng)
     return fn
-
-
-_NP = {}
-
-
-def _npairs_of_spec_cached(si):
-    if si not in _NP:
-        _NP[si] = _npairs_of_spec(SMALL[si])
-    return _NP[si]
-
-
-def _directed_order(table):
-    """Cheap and diverse first: sort by the size of the enumeration so that the quick tier (a prefix)
-    sees every spec and all small thread counts, the thorough tier the whole table."""
-    def cost(item):
-        si, nth = item
-        n = _npairs_of_spec_cached(si)
-        k = min(nth, n)
-        base, extra = divmod(n, k)
-        counts = [base + (1 if x < extra else 0) for x in range(k)]
-        return H.multinomial(counts)
-    return sorted(table, key=lambda it: (cost(it), it[0], it[1]))
 
 
 def fam_sampled(ctx, k):
@@ -670,10 +657,10 @@ def fam_sampled(ctx, k):
     cfg = build_config(rng, spec, "tiny")
     ref = serial_reference(cfg)
     n = cfg.npairs
-    choices = [1, 2, 3, max(2, n // 2), n - 1, n, n + 1, n + 2]
-    nth = int(choices[(k // len(LARGE)) % len(choices)]) if k < 8 * len(LARGE) else int(rng.integers(1, n + 3))
+    choices = [2, 3, n + 2, max(2, n // 2), n, 4, n - 1, n + 1, 1]
+    nth = int(choices[(k + k // len(LARGE)) % len(choices)]) if k < 9 * len(LARGE) else int(rng.integers(1, n + 3))
     nth = max(1, min(nth, n + 2))
-    controlled(ctx, cfg, ref, nth, fine=bool((k // 3) % 2), nsample=ctx.scale(12, 40), rng=rng)
+    controlled(ctx, cfg, ref, nth, fine=bool(k % 2), nsample=ctx.scale(16, 40), rng=rng)
 
 
 def fam_sweep(ctx, k):
@@ -740,9 +727,9 @@ _enum_kernel = fam_enum(False)
 _enum_fine = fam_enum(True)
 
 FAMILIES = [
-    Family("enum-kernel", _enum_kernel, quick=40, thorough=lambda ctx: len(enum_table()) + 160,
+    Family("enum-kernel", _enum_kernel, quick=66, thorough=lambda ctx: len(enum_table()) + 160,
            budget={"quick": 40, "thorough": 500}),
-    Family("enum-fine", _enum_fine, quick=24, thorough=lambda ctx: len(enum_table()) + 100,
+    Family("enum-fine", _enum_fine, quick=47, thorough=lambda ctx: len(enum_table()) + 100,
            budget={"quick": 40, "thorough": 500}),
     Family("sampled-large", fam_sampled, quick=20, thorough=640, budget={"quick": 30, "thorough": 420}),
     Family("sweep-threadcounts", fam_sweep, quick=32, thorough=640, budget={"quick": 30, "thorough": 420}),
